@@ -320,6 +320,10 @@ def mutate(rng, t):
     return t[:i]
 
 
+GROUP_BYS = ["year", "month", "date", "iso-week", "iso-week-date"]
+GROUP_KEY = {"year": "year", "month": "month", "date": "date", "iso-week": "week", "iso-week-date": "week_date"}
+
+
 class C16(PropBase):
     id = "C16"
 
@@ -719,9 +723,10 @@ class C16(PropBase):
                 txns[b]["ts"] = {"ns": str(ns), "off": 0 if t.endswith("Z") else off, "text": t}
         text = common.render_journal(txns, common.gen_layout(rng))
         k = rng.randrange(2, 5)
-        variants = [{"report_tz": z, "ts_style": rng.choice(STYLES)} for z in rng.sample(REPORT_ZONES, k)]
+        variants = [{"report_tz": z, "ts_style": rng.choice(STYLES), "group_by": rng.choice(GROUP_BYS)}
+                    for z in rng.sample(REPORT_ZONES, k)]
         return {"op": "run", "kind": "report-tz", "cfg": cfg, "txns": txns, "text": text,
-                "want": ["txns", "register", "balance"], "variants": variants}
+                "want": ["txns", "register", "balance", "balgrp"], "variants": variants}
 
     # ---- protocol plumbing
     def impl_case(self, case):
@@ -955,6 +960,26 @@ class C16(PropBase):
             bals.append(pb)
         if any(b != bals[0] for b in bals[1:]) or bals[0] is None:
             return {"sig": "report-tz-changes-balance", "what": "balance rows/deltas differ between report zones %s" % case["variants"]}
+        # displayed *and grouped* by the report zone: the balance-group titles are exactly the periods of the
+        # transactions' instants shown in that zone (the same `display` the register dates were judged with)
+        for v, x in zip(case["variants"], runs):
+            grp = x["out"].get("balgrp") or {}
+            if grp.get("r") != "OK":
+                return {"sig": "balgrp-output", "what": "balance-group report failed under %s: %s" % (v, grp.get("r"))}
+            groups = common.parse_balgrp_report(grp["v"])
+            if groups is None or any(g.get("title") is None for g in groups):
+                return {"sig": "balgrp-parse", "what": "balance-group report not understood under %s" % v}
+            want = set()
+            for t in base["v"]:
+                ns = int(t["ts"]["ns"])
+                ro = zone_offset_at(v["report_tz"], ns // NS)
+                if ro is None:
+                    want = None
+                    break
+                want.add(display(ns, ro)[GROUP_KEY[v["group_by"]]])
+            if want is not None and set(g["title"] for g in groups) != want:
+                return {"sig": "grouping-not-by-report-zone", "what": "balance-group titles %s under %s, the periods of the instants "
+                        "shown in that zone are %s" % (sorted(g["title"] for g in groups), v, sorted(want))}
         b0 = [(h, rows) for _, h, rows in regs[0]]
         for v, ent in zip(case["variants"][1:], regs[1:]):
             if [(h, rows) for _, h, rows in ent] != b0:
